@@ -143,13 +143,14 @@ func (m *model) complete() bool { _, ok := m.lowest(); return !ok }
 
 func (s *sim) tip() int64 { return s.chain.Height() }
 
-// canonAppHash returns the app hash after height h, if h, h+1 and h+2 exist on the chain.
+// canonAppHash returns the app hash after height h, if h+1 and h+2 exist on the chain.
 func (s *sim) canonAppHash(h uint64) ([]byte, bool) {
+	// (h may be InitialHeight-1: the header of the first block carries the genesis app hash)
 	H := int64(h)
-	if H < s.chain.Opts.InitialHeight || H+2 > s.tip() {
+	if H+1 < s.chain.Opts.InitialHeight || H+2 > s.tip() {
 		return nil, false
 	}
-	return s.chain.States[H].AppHash, true
+	return s.chain.Blocks[H+1].Header.AppHash, true
 }
 
 // ---------------------------------------------------------------- calls
@@ -384,7 +385,7 @@ func (s *sim) checkResult() {
 		e.Fail("C14", "state-height", "returned state has LastBlockHeight %d, restored snapshot height is %d", st.LastBlockHeight, H)
 	}
 	cs, ok := s.chain.States[H]
-	if !ok || s.chain.Blocks[H+1] == nil {
+	if !ok || s.chain.Blocks[H+1] == nil || s.chain.Blocks[H] == nil {
 		e.Fail("C14", "state-height", "returned state of height %d is not on the canonical chain", H)
 	}
 	s.compareState(st, cs, H)
